@@ -10,7 +10,7 @@ import ast
 
 from ..cfg import CFG, EXIT, RAISE
 from ..model import calls_in, call_name, kwarg, real_body, u, walk_no_nested
-from ..tmpl import tall
+from ..tmpl import T, tall, tfind, tmatch
 
 BASE = "hugr.hugr.base"
 STATE = {"_nodes", "_free_nodes", "_links"}
@@ -259,7 +259,7 @@ def is_gap_closing(fn) -> bool:
 def r3_dense_suboffsets(ctx, hugr, file) -> None:
     """on canonical method bodies (aliases of self._links are replaced by the attribute, unknown helpers are inlined)"""
     from ..tmpl import T, tall, thas
-    cm = {name: ctx.cfn(f"{HQ}.{name}") for name in hugr.methods}
+    cm = {name: ctx.cfn(f"{HQ}.{name}") for name in hugr.methods if not ctx.canon.unknown_helper(hugr, name)}
     # contradiction: readers and allocator assume a gap-free prefix of sub-offsets
     lp = cm.get("_linked_ports")
     us = cm.get("_unused_sub_offset")
@@ -304,7 +304,23 @@ def r3_dense_suboffsets(ctx, hugr, file) -> None:
                     hits = [q for q in summaries(lp_.body) if q.find_effect(f"self.{h.name}(_SubPort({e['L_src']}, {i_}))")]
                     if hits and all(any(u(t) in (f"{p_} == {d}", f"{d} == {p_}") and k for t, k in q.tests for d in [a_.arg for a_ in dl.args.args[1:]]) and q.kind in ("return", "break") for q in hits):
                         b = e
-            ok = (a is not None and [a["L_src"], a["L_dst"]] == [x.arg for x in dl.args.args[1:3]]) or b is not None
+            # (c) path summaries: one removal at the first position of dst among linked_ports(src) when there is one, none otherwise
+            #     ("none" = StopIteration handler, or the default of next(.., None) tested)
+            s_, d_ = [x.arg for x in dl.args.args[1:3]]
+            gen = f"(c0 for c0, c1 in enumerate(self.linked_ports({s_})) if c1 == {d_})"
+            c_ok = True
+            kinds = set()
+            for q in ctx.paths(f"{HQ}.delete_link"):
+                rm = q.find_effect(f"self.{h.name}(_SubPort(E_p, E_k))")
+                absent = q.has_test("except_(StopIteration)", True) is not None or q.has_test(f"next({gen}, None) is not None", False) is not None
+                if absent:
+                    kinds.add("absent")
+                    c_ok = c_ok and not rm and q.kind in ("return", "fall")
+                else:
+                    kinds.add("present")
+                    c_ok = c_ok and len(rm) == 1 and rm[0][2]["E_p"] == s_ and rm[0][2]["E_k"] in (f"next({gen})", f"next({gen}, None)") and q.kind in ("return", "fall")
+            c_ok = c_ok and kinds == {"absent", "present"}
+            ok = (a is not None and [a["L_src"], a["L_dst"]] == [x.arg for x in dl.args.args[1:3]]) or b is not None or c_ok
             ctx.check(ok, "C04.R3", "Hugr.delete_link addresses exactly one link", file, dl.lineno,
                       "delete_link(src, dst) must remove the link at the sub-offset where dst appears among linked_ports(src), and do nothing if absent", dl)
 
@@ -482,9 +498,23 @@ def r6_r7_tables(ctx, hugr, file) -> None:
                   f"{name} must consult the forward map for out-ports and the backward map for in-ports", m, expected="OutPort->fwd, InPort->bck", found=str(got))
     # generator-style enumerations (yield): structural
     nl = hugr.methods.get("_node_links")
-    loops = [n for n in ast.walk(nl) if isinstance(n, ast.For)]
-    ok = len(loops) == 1 and u(loops[0].iter) in ("range(self.num_ports(node, direction))",) and any(
-        isinstance(y, ast.Yield) and "self._linked_ports(port, links)" in u(y) for y in ast.walk(loops[0]))
+    cnl = ctx.cfn(f"{HQ}._node_links")
+    loops = [n for n in ast.walk(cnl) if isinstance(n, ast.For)]
+    ok = len(loops) == 1 and isinstance(loops[0].target, ast.Name)
+    if ok:
+        o = loops[0].target.id
+        e = tmatch(loops[0].iter, T("range(self.num_ports(L_node, E_dir))"))
+        ok = e is not None
+        if ok:
+            # each port 0..n-1 of the direction of the map's keys, with everything linked to it
+            e2 = tall(loops[0].body, [f"L_p = L_node.port({o}, E_dir)", "yield (L_p, [*self._linked_ports(L_p, L_links)])"], dict(e)) or \
+                tall(loops[0].body, [f"yield (L_node.port({o}, E_dir), [*self._linked_ports(L_node.port({o}, E_dir), L_links)])"], dict(e))
+            params = [a.arg for a in nl.args.args[1:3]]
+            ok = e2 is not None and [e2["L_node"], e2["L_links"]] == params
+            if ok:
+                lk = params[1]
+                keyed = [h for t_ in (f"next(iter({lk}))", f"next(iter({lk}), ANY_)", f"next(iter({lk}.keys()))", f"next(iter({lk}.keys()), ANY_)") for h in tfind(cnl, T(t_))]
+                ok = bool(keyed) and e2["E_dir"].endswith("direction") or e2["E_dir"] == "direction"
     ctx.check(ok, "C04.R7", "Hugr._node_links", file, nl.lineno, "per-node listings enumerate ports 0..n-1, each with all the ports linked to it", nl)
     lp = hugr.methods.get("_linked_ports")
     whiles = [n for n in ast.walk(lp) if isinstance(n, ast.While)]
@@ -500,29 +530,32 @@ def r6_r7_tables(ctx, hugr, file) -> None:
 
 
 def order_link_rule(ctx, rule: str) -> None:
-    from ..nf import NF, Env, sym
-    hugr = ctx.program.cls(f"{BASE}.Hugr")
-    file = hugr.module.path
-    nf = NF(ctx.program)
-    ao = hugr.methods.get("add_order_link")
-    if ao is None:
-        ctx.broken("anchor vanished: Hugr.add_order_link")
-    env = Env(hugr.module, hugr, {"self": sym("self"), "src": sym("src"), "dst": sym("dst")}, {})
-    ok = False
-    links = [c for c in calls_in(ao, "add_link")]
-    for st in real_body(ao):
-        if isinstance(st, ast.Assign) and isinstance(st.targets[0], ast.Name):
-            env.vars[st.targets[0].id] = _ev_plain(nf, st.value, env)
-    if len(links) == 1:
-        a = [_ev_plain(nf, x, env) for x in links[0].args]
-        want = [_ev_plain(nf, ast.parse("src.out(-1)", mode="eval").body, env), _ev_plain(nf, ast.parse("dst.inp(-1)", mode="eval").body, env)]
-        guards = [n for n in ast.walk(ao) if isinstance(n, ast.If) and links[0] in list(ast.walk(n))]
-        g_ok = False
-        if guards:
-            t = _ev_plain(nf, guards[0].test, env)
-            g_ok = t == ("op", "Not", (("call", ".has_link", (sym("self"), want[0], want[1]), ()),))
-        ok = a == want and g_ok
-    ctx.check(ok, rule, "Hugr.add_order_link", file, ao.lineno, "an order link joins src.out(-1) to dst.inp(-1) and is added only if not yet present", ao)
+    """path summaries: the link out(-1) -> inp(-1) is added exactly on the paths where has_link says it is absent"""
+    ao, m, _ = ctx.locate(f"{HQ}.add_order_link")
+    a = [x.arg for x in ao.args.args[1:3]]
+    if len(a) != 2:
+        ctx.broken("Hugr.add_order_link: expected (self, src, dst)")
+    src, dst = a
+    present = f"self.has_link({src}.out(-1), {dst}.inp(-1))"
+    ps = [p for p in ctx.paths(f"{HQ}.add_order_link") if p.kind in ("fall", "return")]
+    ok = bool(ps)
+    seen = set()
+    why = ""
+    for p in ps:
+        links = p.find_effect("self.add_link(E_a, E_b)")
+        known = [k for t, k in p.tests if u(t) == present]
+        if not known:
+            ok, why = False, "a path does not ask has_link(src.out(-1), dst.inp(-1)): " + p.describe()
+        elif known[0]:
+            seen.add("present")
+            if links:
+                ok, why = False, "the link is added although it exists"
+        else:
+            seen.add("absent")
+            if len(links) != 1 or (links[0][2]["E_a"], links[0][2]["E_b"]) != (f"{src}.out(-1)", f"{dst}.inp(-1)"):
+                ok, why = False, "on the absent path the link added is " + " | ".join(u(n) for _, n, _ in links)
+    ctx.check(ok and seen == {"present", "absent"}, rule, "Hugr.add_order_link", m.path, ao.lineno,
+              "an order link joins src.out(-1) to dst.inp(-1) and is added only if not yet present" + (f" [{why}]" if why else ""), ao)
 
 
 def _ev_plain(nf, e, env):
